@@ -171,7 +171,31 @@ class CBloomDriver:
         if kind == "add":
             n = op[2]
             if alt:
-                ctx.call(self.noexc, o.add_alt, self._alt_hashes(k), n)
+                hs = self._alt_hashes(k)
+                if self.case.get("alt_mode") == "scratch":
+                    # the caller's reusable buffer: ONE list object, overwritten for every call
+                    if not hasattr(self, "scratch"):
+                        self.scratch = []
+                    self.scratch[:] = hs
+                    hs = self.scratch
+                    self.feats.add("alt_list_scratch")
+                ctx.call(self.noexc, o.add_alt, hs, n)
+                if self.case.get("alt_mode") and self._o("lower"):
+                    # the same list object then goes to a second live filter of ANOTHER size, verified through the key-based API
+                    if not hasattr(self, "shadow"):
+                        try:
+                            self.shadow = self.K(self.case["est"] + 7, self.case["fpr"], hash_function=self.hf)
+                        except Exception:  # noqa  parameters the library refuses for the other size: no second filter in this case
+                            self.shadow = None
+                        self.shadow_true = Counter()
+                    if self.shadow is not None and self.shadow_true[k] + n < 2 ** 31:
+                        ctx.call(self.noexc, self.shadow.add_alt, hs, n)
+                        self.shadow_true[k] += n
+                        r = ctx.call(self.noexc, self.shadow.check, k)
+                        ctx.check(self._o("lower"), r >= self.shadow_true[k],
+                                  lambda: f"second live filter (est {self.case['est'] + 7}) fed the SAME hash list after add_alt({k!r},{n}) on "
+                                          f"the first: check({k!r}) -> {r} < {self.shadow_true[k]}")
+                        self.feats.add("shared_hash_list_second_filter")
             else:
                 ctx.call(self.noexc, o.add, k, n)
             self.true[k] += n
@@ -261,6 +285,7 @@ def case_strategy(tier, max_ops=40):
                        st.tuples(st.just("union"), st.lists(st.tuples(ki, st.integers(1, 4)), max_size=4).map(lambda l: [list(x) for x in l])),
                        st.tuples(st.just("reload"), st.integers(0, 2)))
         return {"t": "cbloom", "est": est, "fpr": fpr, "hash": draw(gen.hash_name_st()), "pool": draw(gen.pool_st(2, 8)),
-                "ops": [list(o) for o in draw(st.lists(op, min_size=3, max_size=max_ops))]}
+                "ops": [list(o) for o in draw(st.lists(op, min_size=3, max_size=max_ops))],
+                "alt_mode": draw(st.sampled_from(["", "", "scratch", "shared"]))}
 
     return case()
